@@ -22,6 +22,9 @@ ASSUMPTIONS = [
     "the copy loops are modelled with the semantics of iterating over the list as it was when the loop started "
     "(what the C++ means; the range-for over a growing vector is undefined behaviour when it reallocates: D4)",
     "magnetics-only label attributes (MagDir) are not modelled; the harness drives an electrostatics document",
+    "the model carries a switch fx for deleteSelectedNodes (false: ToggleSelect as the code stands, true: with "
+    "findings/C16-F1-fix.diff); the check runs the F1 probe on the implementation first and evaluates the variant the "
+    "working tree exhibits",
     "the model is hand-written; its tie to FemmProblem.cpp is the op-sequence correspondence run here",
 ]
 HEADER = ("From Coq Require Import ZArith List Floats. Import ListNotations. "
@@ -56,6 +59,19 @@ def to_text(cid, ops):
         L.append(" ".join([o[0]] + [fmt(v) for v in o[1:]]))
     L.append("end")
     return "\n".join(L) + "\n"
+
+
+FX = {"value": False}      # which variant of deleteSelectedNodes the working tree is (Drawing.v: fx), see detect_fx
+
+
+def detect_fx(exe):
+    """Run the F1 probe on the implementation: does mi_deleteselectednodes keep an already selected segment
+    (code as it stands, fx = false) or remove it (findings/C16-F1-fix.diff applied, fx = true)?"""
+    impl, crashes = run_impl(exe, [(0, PROBE_F1)])
+    got = impl.get(0)
+    if not got or len(got["states"]) != len(PROBE_F1):
+        return False
+    return len(got["states"][-1]["segs"]) == 0
 
 
 def to_coq(ops, zs):
@@ -113,7 +129,7 @@ def to_coq(ops, zs):
             out.append("OMirror %s %s %s %s %d" % (f(a[0]), f(a[1]), f(a[2]), f(a[3]), a[4]))
         else:
             raise ValueError("op %r is not modelled" % (k,))
-    return "map dump (trace (geoA FA) FUEL [%s] empty)" % "; ".join(out)
+    return "map dump (trace (geoA FA) %s FUEL [%s] empty)" % ("true" if FX["value"] else "false", "; ".join(out))
 
 
 # ------------------------------------------------------------------- implementation ----
@@ -169,6 +185,14 @@ def parse_out(out):
     return res
 
 
+def ensure_exe(exe):
+    """other checks running at the same time may evict the snapshot this harness lives in: rebuild it"""
+    if os.path.exists(exe):
+        return exe
+    flavour = "san" if "/harness-san/" in exe else "plain"
+    return vlib.build_harness(vlib.snapshot(flavour), "h_drawing")
+
+
 def run_impl(exe, cases, timeout=600):
     """cases: list of (cid, ops).  The harness may die (a crash is a finding, not an accident): it is
     restarted after the case it died in.  Returns ({cid: parsed}, {cid: dict(rc, op index, stderr)})."""
@@ -177,6 +201,7 @@ def run_impl(exe, cases, timeout=600):
     env = {"ASAN_OPTIONS": "detect_leaks=0:abort_on_error=0", "UBSAN_OPTIONS": "print_stacktrace=1"}
     while todo:
         txt = "".join(to_text(cid, ops) for cid, ops in todo)
+        exe = ensure_exe(exe)
         rc, out, err = vlib.sh([exe], inp=txt, timeout=timeout, env=env)
         got = parse_out(out)
         results.update(got)
@@ -485,6 +510,18 @@ def classify(msg, ops, k, pre, post):
     return None
 
 
+MAX_REPORTS_PER_SIGNATURE = 5
+
+
+def report(ctx, stats, what, **kw):
+    """ctx.fail, at most MAX_REPORTS_PER_SIGNATURE times per signature (all occurrences are counted)"""
+    sig = kw.get("signature", "?")
+    n = stats["signatures"].get(sig, 0) + 1
+    stats["signatures"][sig] = n
+    if n <= MAX_REPORTS_PER_SIGNATURE:
+        ctx.fail(what, **kw)
+
+
 def check_cases(ctx, exe, cases, stats, sanitized=False, with_model=True):
     """Run cases on the implementation, the oracle on every dump, and (optionally) the model."""
     impl, crashes = run_impl(exe, cases)
@@ -502,7 +539,7 @@ def check_cases(ctx, exe, cases, stats, sanitized=False, with_model=True):
             sig = SIG_D4 if opname in COPY_OPS else "C16-crash-" + opname
             rep = "sanitizer report" if sanitized and ("Sanitizer" in c["stderr"] or "runtime error" in c["stderr"]) else "abnormal termination (rc=%d)" % c["rc"]
             head = [l for l in c["stderr"].split("\n") if "ERROR" in l or "runtime error" in l or "SUMMARY" in l][:3]
-            ctx.fail("%s of the real FemmProblem in op %d (%s) of the sequence%s" % (rep, k, opname, ": " + " / ".join(head) if head else ""),
+            report(ctx, stats, "%s of the real FemmProblem in op %d (%s) of the sequence%s" % (rep, k, opname, ": " + " / ".join(head) if head else ""),
                      ops=[list(o) for o in ops[:k + 1]], signature=sig, flavour="san" if sanitized else "plain",
                      stderr=c["stderr"][-1500:])
             stats["crashes"] += 1
@@ -519,8 +556,8 @@ def check_cases(ctx, exe, cases, stats, sanitized=False, with_model=True):
             msg = orc.check_step(pre, ops[k], st)
             if msg:
                 sig = classify(msg, ops, k, pre, st) or ("C16-oracle-" + ops[k][0])
-                ctx.fail("after op %d (%s): %s" % (k, ops[k][0], msg), ops=[list(o) for o in ops[:k + 1]],
-                         signature=sig, flavour="san" if sanitized else "plain")
+                report(ctx, stats, "after op %d (%s): %s" % (k, ops[k][0], msg), ops=[list(o) for o in ops[:k + 1]],
+                       signature=sig, flavour="san" if sanitized else "plain")
                 stats["oracle_failures"] += 1
                 bad_at = k
                 break
@@ -551,7 +588,7 @@ def check_cases(ctx, exe, cases, stats, sanitized=False, with_model=True):
 
 def new_stats():
     return dict(cases=0, evaluations=0, kinds={}, crashes=0, oracle_failures=0, distinct=set(), bit_identical=0,
-                values=0, states_compared=0, dsplit_flag=0)
+                values=0, states_compared=0, dsplit_flag=0, signatures={})
 
 
 def correspond(ctx):
@@ -560,6 +597,9 @@ def correspond(ctx):
     stats = new_stats()
     dis = []
     cases = []
+    FX["value"] = detect_fx(exe)
+    ctx.res.cov["model_variant"] = ("fx=true: deleteSelectedNodes as repaired by findings/C16-F1-fix.diff" if FX["value"]
+                                    else "fx=false: deleteSelectedNodes as it stands (ToggleSelect)")
     cdir = os.path.join(vlib.VERIF, "corpus", "C16")
     if os.path.isdir(cdir):
         for f in sorted(os.listdir(cdir)):
@@ -610,6 +650,7 @@ def correspond(ctx):
     cov["harness_crashes"] = stats["crashes"]
     cov["oracle_failures"] = stats["oracle_failures"]
     cov["double_split_flag_seen"] = stats["dsplit_flag"]
+    cov["failures_by_signature"] = stats["signatures"]
     cov["sanitizer_replay"] = stats.get("san", {})
     if "exhaustive" in stats:
         cov["exhaustive"] = True
@@ -689,7 +730,8 @@ def sanitizer_replay(ctx, stats):
     cases += [gen_seq(rng, rng.randint(8, 20), arcs=(k % 3 == 0)) for k in range(20 if ctx.quick() else 300)]
     st = new_stats()
     check_cases(ctx, exe, list(enumerate(cases)), st, sanitized=True, with_model=False)
-    stats["san"] = dict(sequences=st["cases"], ops_checked=st["evaluations"], reports=st["crashes"])
+    stats["san"] = dict(sequences=st["cases"], ops_checked=st["evaluations"], reports=st["crashes"],
+                        failures_by_signature=st["signatures"])
     stats["evaluations"] += st["evaluations"]
     for k, v in st["kinds"].items():
         stats["kinds"][k] = stats["kinds"].get(k, 0) + v
